@@ -452,6 +452,11 @@ func (v *Validators) PayRewardsV5Fix(height uint64, period int64) (moreRewards *
 
 	for _, validator := range vals {
 		candidate := v.bus.Candidates().GetCandidate(validator.PubKey)
+		if candidate == nil {
+			// the candidate changed its public key in this block: this record still carries the old key and
+			// is replaced by the validators update that follows in the same EndBlock
+			continue
+		}
 
 		totalReward := big.NewInt(0).Set(validator.GetAccumReward())
 		remainder := big.NewInt(0).Set(validator.GetAccumReward())
